@@ -28,14 +28,20 @@
 (* The switch InsertOverwrites describes the code before its repair: the    *)
 (* check-then-insert of map() replaces an entry that was cached in between. *)
 (* TLC finds the counterexample (MC_Conc_bug_insert.cfg); the registered    *)
-(* runs use FALSE.                                                          *)
+(* runs use FALSE.  The switch MapSkipsHeldShard describes a map() that      *)
+(* does not wait for a shard a streaming call holds (MC_Conc_bug_tryget.cfg  *)
+(* violates NoMonitorFired: the answer is not the cached value); what the    *)
+(* insert step of map() answers is the stored value by construction          *)
+(* (or_insert), so "every map() answer on a key is the one value the cache   *)
+(* holds" follows from WriteOnce in the unmodified design.                   *)
 (***************************************************************************)
 EXTENDS Naturals, Integers, Sequences, FiniteSets, TLC, Json
 
 CONSTANTS Threads,          \* e.g. {0, 1}
           Programs,         \* set of functions Threads -> Seq(op)
           ShardOf,          \* key -> shard
-          InsertOverwrites
+          InsertOverwrites,
+          MapSkipsHeldShard \* TRUE: map() does not wait for a held shard (seed C18-f); registered runs use FALSE
 
 Keys == DOMAIN ShardOf
 
@@ -113,9 +119,18 @@ Release(t) ==
             /\ UNCHANGED <<cache, lock, nextId, tmp, bad, ilock>>
        \* ---- CachedSource::map
        [] p = "cached.map.get" ->
+            IF MapSkipsHeldShard /\ lock[ShardOf[op.key]] # -1
+              THEN \* the shape of seed C18-f: the lookup does not wait for a held shard, the call answers
+                   \* with a map of its own (inner.map()) and leaves the cache alone - the answer is not
+                   \* the value the cache holds (or is about to hold) for the option set
+                   /\ nextId' = nextId + 1
+                   /\ bad' = IF cache[op.key] = nextId THEN bad ELSE bad \cup {"MapAnswerIsCached"}
+                   /\ Finish(t)
+                   /\ UNCHANGED <<cache, lock, tmp, flag, idx, ilock>>
+              ELSE
             /\ lock[ShardOf[op.key]] = -1          \* get() needs the shard
             /\ IF cache[op.key] # 0
-                 THEN Finish(t) /\ UNCHANGED <<nextId, tmp>>
+                 THEN Finish(t) /\ UNCHANGED <<nextId, tmp>>   \* answers with cache[op.key]
                  ELSE /\ Goto(t, "cached.map.insert")
                       /\ tmp' = [tmp EXCEPT ![t] = nextId]     \* inner.map()
                       /\ nextId' = nextId + 1
